@@ -524,3 +524,10 @@ PROPS["C11"]["level_text"] = (
     "and every message the real decoder accepts is re-encoded and decoded again by an implementation-side oracle.")
 PROPS["C11"]["level_note"] = ("Vectors are assumed to hold fewer than 2^64 elements (VecBounded; a Rust Vec cannot hold more). Encoding the same message "
                               "twice gives the same bytes because serialize is a pure function of the message (checked by the oracle).")
+
+
+# C16: multi-thread stress of the real engine (oracle-only): simultaneous timeouts on 8 worker threads, then the whole window must be usable
+PROPS["C16"]["suites"]["client_mt"] = {"kind": "oracle", "nvh_suite": "client_mt", "cases": {"quick": 6, "thorough": 120}, "oracle_tags": ["C16"]}
+PROPS["C16"]["level_note"] += (" Thread interleavings inside the engine (the pending table's lock, drop guards running on several worker threads) are "
+                               "outside the model; the client_mt suite searches them by stress on a multi-thread runtime in real time — support for finding a "
+                               "failing history, not part of the proof.")
